@@ -68,7 +68,7 @@ func genC14(rng *prng.R, idx int) *c14state {
 	usedOffsets := map[int64]bool{}
 	newOffset := func() string {
 		for {
-			o := int64(rng.Pick(0, 1, 5, 99, 1000, 1<<31-5, 1<<40)) + int64(rng.Intn(1000))
+			o := int64(rng.Pick(0, 1, 5, 99, 1000, 1<<31-5, 1<<32-500, 1<<40)) + int64(rng.Intn(1000))
 			if !usedOffsets[o] {
 				usedOffsets[o] = true
 				return strconv.FormatInt(o, 10)
